@@ -216,23 +216,25 @@ func c36BuildSidecars(cfg config.Config, segs []*c36Seg) error {
 // ---------------------------------------------------------------- queries
 
 type c36Query struct {
-	Text     string
-	Topic    string
-	Cols     []string // resolved output columns
-	Part     *int32
-	OffMin   *int64
-	OffMax   *int64
-	TsMin    *int64
-	TsMax    *int64
-	LastText string
-	LastMs   int64
-	Limit    int // 0 = not given
-	Tail     int
-	Order    bool
-	Desc     bool
-	ScanFull bool
-	Shape    string
-	ListText string // the select list as written (for building variants)
+	Text      string
+	Topic     string
+	Cols      []string // resolved output columns
+	Part      *int32
+	OffMin    *int64
+	OffMax    *int64
+	TsMin     *int64
+	TsMax     *int64
+	LastText  string
+	LastMs    int64
+	Limit     int // 0 = not given (unless LimitZero)
+	Tail      int
+	LimitZero bool // explicit LIMIT 0
+	TailZero  bool // explicit TAIL 0
+	Order     bool
+	Desc      bool
+	ScanFull  bool
+	Shape     string
+	ListText  string // the select list as written (for building variants)
 }
 
 // a column spec is an implicit column name or "json\x00<path>\x00<alias>" for json_value(_value, '<path>') [AS <alias>]
@@ -475,7 +477,8 @@ func c36GenQuery(t *rapid.T, d *c36Data, allTs []int64, allOffs []int64) c36Quer
 		shape = append(shape, "last")
 	}
 	if mode == 2 {
-		q.Tail = rapid.SampledFrom([]int{1, 2, 3, 5, 50}).Draw(t, "tail")
+		q.Tail = rapid.SampledFrom([]int{1, 2, 3, 5, 50, 0}).Draw(t, "tail")
+		q.TailZero = q.Tail == 0
 		stops = append(stops, c36Kw(t, "tail")+" "+strconv.Itoa(q.Tail))
 		shape = append(shape, "tail")
 	}
@@ -484,8 +487,10 @@ func c36GenQuery(t *rapid.T, d *c36Data, allTs []int64, allOffs []int64) c36Quer
 		stops = append(stops, c36Kw(t, "scan")+" "+c36Kw(t, "full"))
 		shape = append(shape, "scanfull")
 	}
-	if q.Tail == 0 && rapid.IntRange(0, 1).Draw(t, "wlimit") == 0 {
-		q.Limit = rapid.SampledFrom([]int{1, 2, 3, 5, 1000}).Draw(t, "limit")
+	hasTail := mode == 2
+	if !hasTail && rapid.IntRange(0, 1).Draw(t, "wlimit") == 0 {
+		q.Limit = rapid.SampledFrom([]int{1, 2, 3, 5, 1000, 0}).Draw(t, "limit")
+		q.LimitZero = q.Limit == 0
 		stops = append(stops, c36Kw(t, "limit")+" "+strconv.Itoa(q.Limit))
 		shape = append(shape, "limit")
 	}
@@ -495,7 +500,7 @@ func c36GenQuery(t *rapid.T, d *c36Data, allTs []int64, allOffs []int64) c36Quer
 	for _, s := range stops {
 		sb.WriteString(" " + s)
 	}
-	if q.Tail == 0 && rapid.IntRange(0, 2).Draw(t, "worder") == 0 {
+	if !hasTail && rapid.IntRange(0, 2).Draw(t, "worder") == 0 {
 		q.Order = true
 		sb.WriteString(" " + c36Kw(t, "order by") + " _ts")
 		switch rapid.IntRange(0, 2).Draw(t, "dir") {
@@ -566,11 +571,11 @@ func c36ParserAgrees(q c36Query) (bool, bool) {
 		return false, true
 	}
 	lim := ""
-	if q.Limit > 0 {
+	if q.Limit > 0 || q.LimitZero {
 		lim = strconv.Itoa(q.Limit)
 	}
 	tail := ""
-	if q.Tail > 0 {
+	if q.Tail > 0 || q.TailZero {
 		tail = strconv.Itoa(q.Tail)
 	}
 	ob := ""
@@ -704,6 +709,9 @@ func c36Reference(d *c36Data, q c36Query, defaultLimit int) c36Expect {
 	if q.Tail > 0 {
 		e.cap = q.Tail
 	}
+	if q.LimitZero || q.TailZero {
+		e.cap = 0 // an explicit LIMIT 0 / TAIL 0 asks for no rows
+	}
 	return e
 }
 
@@ -801,6 +809,8 @@ func c36ErrClass(msg string) string {
 const (
 	c36FindingCacheKey  = "C36-result-cache-key-folds-literals" // fixed by 0cf7913: no exclusion, witness kept
 	c36FindingAliasCase = "C36-result-cache-alias-case"
+	c36FindingTopicCase = "C36-topic-name-lowercased"
+	c36FindingLimitZero = "C36-limit-zero-returns-default"
 )
 
 func c36VariantOfSome(t *rapid.T, prev []c36Query) (c36Query, bool) {
@@ -938,6 +948,8 @@ func TestVF_C36_Select(t *testing.T) {
 	defer s3.Close()
 	quiet := log.New(io.Discard, "", 0)
 	knownAliasCase := vfkit.Known(c36FindingAliasCase)
+	knownTopicCase := vfkit.Known(c36FindingTopicCase)
+	knownLimitZero := vfkit.Known(c36FindingLimitZero)
 
 	rapid.Check(t, func(t *rapid.T) {
 		st.Eval()
@@ -985,6 +997,15 @@ func TestVF_C36_Select(t *testing.T) {
 		// ---- data set
 		d := &c36Data{ns: ns, parts: map[string]int{}, next: map[string]int64{}, now0: now0}
 		d.topics = rapid.SliceOfNDistinct(rapid.SampledFrom([]string{"orders", "pay", "ev_1"}), 1, 3, rapid.ID[string]).Draw(t, "topics")
+		// topic names are case sensitive: sometimes add names with upper-case letters and pairs that differ only in case
+		switch rapid.IntRange(0, 8).Draw(t, "caseTopics") {
+		case 0:
+			d.topics = append(d.topics, "userEvents")
+		case 1:
+			d.topics = append(d.topics, "userEvents", "userevents")
+		case 2:
+			d.topics = append(d.topics, "Orders") // "orders" may exist as well
+		}
 		monotone := rapid.IntRange(0, 2).Draw(t, "monotone") != 0
 		for _, topic := range d.topics {
 			np := rapid.IntRange(1, 3).Draw(t, "nparts")
@@ -1075,7 +1096,7 @@ func TestVF_C36_Select(t *testing.T) {
 
 		var prev []c36Query
 		var cachedJSON []c36Query // answered, cacheable queries with JSON columns on a cache-enabled server (weighted as variant sources)
-		var seen [][2]string // (text folded outside quotes, aliases as written) of every query sent to this server
+		var seen [][2]string      // (text folded outside quotes, aliases as written) of every query sent to this server
 		nq := rapid.IntRange(3, 8).Draw(t, "nqueries")
 		for qi := 0; qi < nq; qi++ {
 			// history step: a segment becomes complete / a new segment (and maybe its sidecar) appears
@@ -1109,7 +1130,21 @@ func TestVF_C36_Select(t *testing.T) {
 			}
 			prev = append(prev, q)
 
-			cacheable := q.Tail == 0 && !q.ScanFull && (q.LastText != "" || (q.TsMin != nil && q.TsMax != nil))
+			if strings.ToLower(q.Topic) != q.Topic {
+				st.Class("topic-with-upper-case")
+				if knownTopicCase {
+					st.ExcludedCase(c36FindingTopicCase)
+					continue
+				}
+			}
+			if q.LimitZero || q.TailZero {
+				st.Class("limit-or-tail-zero")
+				if knownLimitZero {
+					st.ExcludedCase(c36FindingLimitZero)
+					continue
+				}
+			}
+			cacheable := q.Tail == 0 && !q.TailZero && !q.ScanFull && (q.LastText != "" || (q.TsMin != nil && q.TsMax != nil))
 			if resultCache && cacheable {
 				// known finding: unquoted aliases that differ only in letter case share a cache entry
 				clash := false
@@ -1287,6 +1322,28 @@ func TestVF_C36_Witness(t *testing.T) {
 	seg.idx = art.IndexBytes
 	c36Complete(s3, seg)
 	d.segs = []*c36Seg{seg}
+	{ // a topic whose name has an upper-case letter
+		d.topics = append(d.topics, "userEvents")
+		d.parts["userEvents"] = 1
+		us := &c36Seg{Topic: "userEvents", Part: 0, Base: 0, Key: c36SegKey(d.ns, "userEvents", 0, 0, "kfs"), IdxKey: c36SegKey(d.ns, "userEvents", 0, 0, "index")}
+		var urecs []vfkit.Record
+		for i := 0; i < 3; i++ {
+			us.Recs = append(us.Recs, c36Rec{Part: 0, Off: int64(i), Ts: first + int64(i), Key: []byte("u"), Seg: us.Key})
+			urecs = append(urecs, vfkit.Record{TsDelta: int64(i), Key: []byte("u")})
+		}
+		urb, err := storage.NewRecordBatchFromBytes(vfkit.NewBatch(0, first, urecs).Encode())
+		if err != nil {
+			t.Fatalf("VF-INCONCLUSIVE: %v", err)
+		}
+		uart, err := storage.BuildSegment(storage.SegmentWriterConfig{IndexIntervalMessages: 1}, []storage.RecordBatch{urb}, time.UnixMilli(now0))
+		if err != nil {
+			t.Fatalf("VF-INCONCLUSIVE: %v", err)
+		}
+		s3.Put(c36Bucket, us.Key, uart.SegmentBytes)
+		us.idx = uart.IndexBytes
+		c36Complete(s3, us)
+		d.segs = append(d.segs, us)
+	}
 	cfg := config.Config{
 		S3:          config.S3Config{Bucket: c36Bucket, Namespace: d.ns, Endpoint: s3.URL(), Region: "us-east-1", PathStyle: true},
 		Server:      config.ServerConfig{ServerVersion: "15.0", ClientEncoding: "UTF8"},
@@ -1335,4 +1392,28 @@ func TestVF_C36_Witness(t *testing.T) {
 	run(c36FindingAliasCase, [2]c36Query{mk("$.p", "VAL"), mk("$.p", "val")},
 		"result cache on: `SELECT _offset, json_value(_value, '$.p') as VAL FROM orders LAST 1h` then the same with `as val` is answered with column header VAL (the first query's cache entry)",
 		"the `as val` query gets its own column header after the `as VAL` query")
+	runOne := func(id string, q c36Query, whatStill, whatGone string) {
+		st.Eval()
+		resp := c36RunQuery(fe, cc, q.Text)
+		if resp.ioErr != nil {
+			t.Fatalf("VF-INCONCLUSIVE: witness query %q failed: %v", q.Text, resp.ioErr)
+		}
+		v := ""
+		if resp.errMsg == "" { // rejecting would be acceptable
+			v = c36Judge(d, q, c36Reference(d, q, cfg.Query.DefaultLimit), resp, st, "witness")
+		}
+		st.NonTrivial(q.Text)
+		st.Sample(map[string]any{"query": q.Text, "rows": len(resp.rows), "error": resp.errMsg, "verdict": strings.SplitN(v, "\n", 2)[0]})
+		if v != "" {
+			st.KnownResult(id, true, whatStill)
+		} else {
+			st.KnownResult(id, false, whatGone)
+		}
+	}
+	runOne(c36FindingTopicCase, c36Query{Text: "SELECT _offset, _key FROM userEvents SCAN FULL", Topic: "userEvents", Cols: []string{"_offset", "_key"}, ScanFull: true, ListText: "_offset, _key"},
+		"`SELECT _offset, _key FROM userEvents SCAN FULL` returns 0 rows although topic userEvents has 3 records (the parser reads the lower-cased name)",
+		"the query on userEvents returns the topic's rows (or is rejected)")
+	runOne(c36FindingLimitZero, c36Query{Text: "SELECT _offset FROM orders LIMIT 0 SCAN FULL", Topic: "orders", Cols: []string{"_offset"}, ScanFull: true, LimitZero: true, ListText: "_offset"},
+		"`SELECT _offset FROM orders LIMIT 0 SCAN FULL` returns the topic's 2 rows instead of none",
+		"LIMIT 0 returns no rows (or is rejected)")
 }
